@@ -45,9 +45,41 @@ func TestVerifField(t *testing.T) {
 		}
 		return new(big.Int).Rand(rng, P)
 	}
+	// operand tuples whose product has a real part that is a small negative number, zero, or wraps past 2^127 (deterministic, every run)
+	p2 := func(k uint) *big.Int { return new(big.Int).Lsh(big.NewInt(1), k) }
+	pm := func(d int64) *big.Int { return new(big.Int).Sub(P, big.NewInt(d)) }
+	var edges [][4]*big.Int
+	for _, a1 := range []*big.Int{p2(126), p2(125), pm(0), pm(1), big.NewInt(1), new(big.Int).Add(p2(126), big.NewInt(1))} {
+		for _, b1 := range []*big.Int{big.NewInt(2), big.NewInt(4), big.NewInt(1), pm(1), pm(0)} {
+			for _, ab := range [][2]*big.Int{{big.NewInt(0), big.NewInt(7)}, {pm(2), big.NewInt(1)}, {big.NewInt(1), pm(1)}} {
+				edges = append(edges, [4]*big.Int{ab[0], a1, ab[1], b1})
+			}
+		}
+	}
+	w := func(lo, hi uint64) *big.Int {
+		return new(big.Int).Or(new(big.Int).SetUint64(lo), new(big.Int).Lsh(new(big.Int).SetUint64(hi), 64))
+	}
+	var sqEdges [][2]*big.Int
+	for _, lo := range []uint64{0, 1, 5, 1 << 63, ^uint64(0)} {
+		for _, h := range [][2]uint64{{1 << 32, 1<<63 - 1}, {0, 1}, {1, 2}, {0, 1<<63 - 1}, {1 << 62, 1<<62 + 1}, {7, 7}} {
+			sqEdges = append(sqEdges, [2]*big.Int{w(lo, h[0]), w(lo, h[1])}, [2]*big.Int{w(lo, h[1]), w(lo, h[0])})
+		}
+	}
+	ei := rng.Intn(len(edges))
 	for i := 0; i < n; i++ {
 		for k := 0; k < 6; k++ {
 			set(k, pick())
+		}
+		if i%4 == 1 && i < 4*len(edges) {
+			t := edges[(ei+i/4)%len(edges)]
+			for k := 0; k < 4; k++ {
+				set(k, t[k])
+			}
+		}
+		if i%4 == 2 && i < 4*len(sqEdges) { // squaring: a0 < a1 with equal low words (a borrow has to cross the word boundary), and friends
+			t := sqEdges[(ei+i/4)%len(sqEdges)]
+			set(0, t[0])
+			set(1, t[1])
 		}
 		pre := fieldrun.Snapshot(&g)
 		v := func(k int) *big.Int { return get(k) }
